@@ -402,6 +402,16 @@ class Engine:
         return self.eval_named_const(ctx, text, env)
 
     def eval_named_const(self, ctx, text, env):
+        im = re.fullmatch(r"(?:core|std)::num::<impl (\w+)>::(MAX|MIN|BITS)", text)
+        if im and im.group(1) in INT_BITS:
+            ty, which = im.group(1), im.group(2)
+            bits = INT_BITS[ty]
+            signed = ty[0] == "i"
+            if which == "BITS":
+                return Sc("u32", bits)
+            if which == "MAX":
+                return Sc(ty, (1 << (bits - 1)) - 1 if signed else (1 << bits) - 1)
+            return Sc(ty, -(1 << (bits - 1)) if signed else 0)
         pm = re.fullmatch(r"(.*)::promoted\[(\d+)\]", text)
         if pm:
             # promoted constant of a function: find that function's MIR name
